@@ -46,7 +46,7 @@ class C12(Monitor):
                 elif not s.ok and not s.snap['closed'] and s.exc['type'] == 'InvalidSettingsValueError':
                     self.fail('valid-refused-local', '%s refused in-range values' % s.op, s, settings=dict(d))
             return
-        if s.snap['closed'] or len(s.units) != 1 or (not s.ok and s.trailing >= 9) or s.quirk:
+        if s.snap['closed'] or not s.exact or s.quirk:
             return
         u = s.units[0]
         if u.type != C.SETTINGS or u.ack or u.bad is not None or u.length > s.snap['mine'][C.S_MAX_FRAME_SIZE]:
